@@ -34,6 +34,12 @@ from functools import lru_cache
 @lru_cache(maxsize=4)
 def read_table(path):
     return np.load(path)
+class Shared:
+    _poly = None
+    def __init__(self, n):
+        if Shared._poly is None:
+            Shared._poly = [0]
+        self.poly = Shared._poly
 '''
 
 
@@ -72,8 +78,24 @@ def analyse_tree(tree: ast.Module, relpath: str):
     problems = []
     funcs = [n for n in ast.walk(tree) if isinstance(n, (ast.FunctionDef, ast.AsyncFunctionDef))]
     # decorator memos: functools.lru_cache / cache around a function whose result depends on something that is not an argument VALUE
-    dec_stores = []
     READERS = ("load", "load_npz", "loadtxt", "genfromtxt", "read_csv", "read_table", "open", "Universe", "read", "read_text", "fromfile")
+    dec_stores = []
+    # class-level state written from a method:  ClassName.attr = ...  /  cls.attr = ... / type(self).attr = ...
+    class_names = {n.name for n in ast.walk(tree) if isinstance(n, ast.ClassDef)}
+    for fn in funcs:
+        for n in ast.walk(fn):
+            if isinstance(n, (ast.Assign, ast.AugAssign)):
+                for tg in (n.targets if isinstance(n, ast.Assign) else [n.target]):
+                    if isinstance(tg, ast.Attribute):
+                        b = tg.value
+                        is_cls = (isinstance(b, ast.Name) and (b.id in class_names or b.id == "cls")) or \
+                            (isinstance(b, ast.Call) and isinstance(b.func, ast.Name) and b.func.id == "type") or \
+                            (isinstance(b, ast.Attribute) and b.attr == "__class__")
+                        if is_cls:
+                            dec_stores.append((fn, n))
+                            problems.append(("classstate", f"{relpath}:{fn.name}", n, f"`{src(tg)}` is state of the CLASS, written from a method: every "
+                                             "object of the class (and every later construction in the process) sees what earlier ones left "
+                                             "there, so a result depends on the objects built before"))
     for fn in funcs:
         decs = [src(d.func) if isinstance(d, ast.Call) else src(d) for d in fn.decorator_list]
         if not any(d.split(".")[-1] in ("lru_cache", "cache", "memoize", "cached") for d in decs):
@@ -229,7 +251,7 @@ def check_caches(ctx, repo: Repo, pid: str, module_names: List[str]):
     # positive control
     ctl_stores, ctl_problems = analyse_tree(ast.parse(CONTROL), "<control>")
     kinds = {p[0] for p in ctl_problems}
-    if not ({"key", "lossy", "mutate", "stale"} <= kinds) or len(ctl_stores) < 3:
+    if not ({"key", "lossy", "mutate", "stale", "classstate"} <= kinds) or len(ctl_stores) < 4:
         ctx.inconclusive("CACHE", f"{pid}.cache.control", "positive control of the cache rule did not match", "<control>",
                          witness=f"stores={len(ctl_stores)}, kinds={sorted(kinds)}")
         return
